@@ -42,6 +42,9 @@ pub enum COp {
     /// list the documents or the author keys of the store (another read path, which by its
     /// documentation commits the open transaction as well)
     List { authors: bool },
+    /// the other read paths: 0 point lookup, 1 heads, 2 peers, 3 policy, 4 author key (none of
+    /// them promises to commit), 5 content hashes (commits, like a query)
+    Peek { d: u8, kind: u8 },
 }
 
 #[derive(Serialize, Deserialize, Clone, Debug)]
@@ -187,6 +190,7 @@ impl Scenario for Crash {
                 15 => COp::Remove { d },
                 16 | 17 => COp::Flush,
                 18 => COp::List { authors: rng.chance(1, 2) },
+                19 if rng.chance(1, 2) => COp::Peek { d, kind: rng.below(6) as u8 },
                 _ => COp::Read { d },
             };
             ops.push(op);
@@ -424,6 +428,27 @@ async fn execute(plan: &CrashPlan, place: &[(usize, u32)], io_error: Option<(u64
                 }
                 states.push(m.clone());
             }
+            COp::Peek { d, kind } => {
+                let ns = w.doc_id(*d);
+                let ok = match kind % 6 {
+                    0 => store.get_exact(ns, w.author_id(0), b"a", true).is_ok(),
+                    1 => store.get_latest_for_each_author(ns).map(|it| it.count()).is_ok(),
+                    2 => store.get_sync_peers(&ns).map(|it| it.map(|i| i.count())).is_ok(),
+                    3 => store.get_download_policy(&ns).is_ok(),
+                    4 => store.get_author(&w.author_id(0)).is_ok(),
+                    _ => {
+                        let r = store.content_hashes().map(|it| it.count()).is_ok();
+                        if r {
+                            flushed = Some(states.len() - 1);
+                        }
+                        r
+                    }
+                };
+                if !ok {
+                    failed = true;
+                }
+                states.push(m.clone());
+            }
             COp::List { authors } => {
                 let ok = if *authors { store.list_authors().map(|it| it.count()).is_ok() } else { store.list_namespaces().map(|it| it.count()).is_ok() };
                 if ok {
@@ -471,6 +496,7 @@ fn classify(plan: &CrashPlan, k_in_progress: Option<usize>, placement: &[(usize,
         COp::Flush => "flush",
         COp::Read { .. } => "read",
         COp::List { .. } => "list",
+        COp::Peek { .. } => "peek",
     };
     let inprog = k_in_progress.map(opname).unwrap_or("none");
     let placed = if placement.is_empty() { "no-age-commit".to_string() } else { format!("age-commit-inside-{}", placement.iter().map(|(k, _)| opname(*k)).collect::<Vec<_>>().join("+")) };
